@@ -137,6 +137,8 @@ def check_guards(ctx, wm: WeaverModel):
     xy = Term('param', (Const('xy'),), kind='unknown')
     ev = Evaluator(ctx.prog, inline=lambda f: not f.qualname.startswith(WEAVER), opaque_kind=REPO_RESULT_KIND)
     ev.run_function(fi, args={'xy': xy})
+    if ev.issues:
+        raise AnalysisError(f"C20.1: Weaver.from_2d_array not canonicalisable: {ev.issues[:3]}")
     rs = [e for e in ev.events if e.kind == 'raise']
     news = [e for e in ev.events if e.kind in ('new', 'call')]
     ok = any(e.data.get('exc') == 'ValueError' and guard_mentions(e.guard, lambda t: isinstance(t, Term) and t.head == 'attr' and veq(t.args[1], Const('shape'))
@@ -145,7 +147,13 @@ def check_guards(ctx, wm: WeaverModel):
     two = any(isinstance(t, Num) and t.is_const() and t.const() == 2 for e in rs for g in e.guard for t in walk_vals(g))
     ctx.check(ok and two, 'C20.1', 'non-(N,2) array: from_2d_array tests the shape and raises ValueError',
               f"raises: {[(e.data.get('exc'), [str(g)[:80] for g in e.guard]) for e in rs]}", fi.loc(), fi.qualname, 'shape')
-    ctx.check(all(e.seq < min([n.seq for n in news] or [10 ** 9]) for e in rs), 'C20.1', 'the shape check precedes the construction', '', fi.loc(), fi.qualname, 'shape-order')
+    def excluded(r_, n_) -> bool:
+        """the construction n_ cannot happen on the path of the refusal r_: the refusal comes first in program order (its path ends there), or the two
+        sit on opposite branches of one test"""
+        from ..values import p_not
+        return r_.seq < n_.seq or any(veq(g_, p_not(h_)) or veq(p_not(g_), h_) for g_ in r_.guard for h_ in n_.guard)
+    ctx.check(all(excluded(e, n_) for e in rs for n_ in news), 'C20.1', 'the shape check precedes the construction (no Weaver is built from an array that is refused)',
+              '', fi.loc(), fi.qualname, 'shape-order')
     # 3 n < 2 : C04.4 on the base class
     st = strategy(ctx.prog, 'PiecewiseConstantRFA')
     from .c04 import _is_n_lt_2
